@@ -1399,6 +1399,422 @@ impl<'s, X: Item> VecExec<'s, $K, X> {
                 }
                 true
             }
+            VArith => {
+                let v = match std::mem::replace(&mut self.form, Form::Gone) {
+                    Form::V(v) => v,
+                    other => {
+                        self.form = other;
+                        return false;
+                    }
+                };
+                let mode = op.a % 11;
+                let keep_last = (op.b >> 8) & 1 == 1;
+                let what = match mode {
+                    0 => "v + w",
+                    1 => "v + [array]",
+                    2 => "v * (tuple)",
+                    3 => "v + &w",
+                    4 => "v += w",
+                    5 => "-v",
+                    6 => "v.mul_add(w, u)",
+                    7 => "Sum over a source of vectors",
+                    8 => "Product over a source of vectors",
+                    9 => "v.sum()",
+                    _ => "v.product()",
+                };
+                self.st.probes[P_ARITH] += 1;
+                // how many further operand vectors the operation takes
+                let extra = match mode {
+                    0 | 1 | 2 | 3 | 4 => 1,
+                    6 => 2,
+                    7 | 8 => ((op.b & 0xff) % 3) as usize,
+                    _ => 0,
+                };
+                let mut operands: Vec<<$K as Kind<X>>::V> = Vec::with_capacity(extra);
+                let mut og: Vec<Vec<Grp>> = Vec::with_capacity(extra);
+                for _ in 0..extra {
+                    let (items, grps) = Self::fresh_items_u(OWN_DOOMED, self.uniform);
+                    self.st.elements_created += (n * X::W) as u64;
+                    operands.push(<$K as Kind<X>>::v_from_arr(<$K as Kind<X>>::arr_from_vec(items)));
+                    og.push(grps);
+                }
+                let mine: Vec<Grp> = self.model.clone();
+                // every element that takes part, and its lane (position in its vector, times W, plus leaf index)
+                let mut lane_of: std::collections::BTreeMap<u32, usize> = std::collections::BTreeMap::new();
+                for grps in std::iter::once(&mine).chain(og.iter()) {
+                    for (i, g) in grps.iter().enumerate() {
+                        for (j, id) in g.iter().enumerate() {
+                            lane_of.insert(id, i * X::W + j);
+                        }
+                    }
+                }
+                let op_panic = if op.f > 0 && op.f < 1000 { op.f } else { 0 };
+                let zero_panic = if op.f >= 1000 && (mode == 7 || mode == 8) { op.f - 1000 + 1 } else { 0 };
+                let src_panic = if mode == 7 || mode == 8 { (op.b >> 9) as usize } else { 0 };
+                if op_panic > 0 || zero_panic > 0 || src_panic > 0 {
+                    self.st.fault_cfg[F_ARITH_PANIC] += 1;
+                }
+                // owners: by-value operators destroy every operand but the one they return; with a
+                // planned panic anything may be destroyed by the unwinding
+                let faulty = op_panic > 0 || zero_panic > 0 || src_panic > 0;
+                for g in mine.iter() {
+                    g.set_owner(if keep_last && !matches!(mode, 3 | 5) { OWN_DOOMED } else { OWN_MAIN });
+                }
+                if matches!(mode, 7 | 8 | 9 | 10) {
+                    // a chain of calls: which operand survives depends on the shape of the chain
+                    for g in mine.iter() {
+                        g.set_owner(OWN_DOOMED);
+                    }
+                }
+                let allow = m(OWN_DOOMED) | m(OWN_FRESH) | if faulty { m(OWN_MAIN) } else { 0 };
+                crate::arith::arm(op_panic, keep_last);
+                enum Out<V, X> {
+                    V(V),
+                    X(X),
+                    Assigned,
+                }
+                let mut kept_v: Option<<$K as Kind<X>>::V> = None; // mode 4: the vector stays with the harness
+                let mut kept_w: Option<<$K as Kind<X>>::V> = None; // mode 3: the borrowed operand
+                let mut unpulled: Vec<<$K as Kind<X>>::V> = Vec::new();
+                let mut pulled = 0usize;
+                let mut src_fired = false;
+                let (r, zfired) = {
+                    let kept_v = &mut kept_v;
+                    let kept_w = &mut kept_w;
+                    let unpulled = &mut unpulled;
+                    let pulled = &mut pulled;
+                    let src_fired = &mut src_fired;
+                    let mut operands = operands;
+                    guard(allow, m(OWN_MAIN) | m(OWN_DOOMED) | m(OWN_FRESH), plan_of(Cb::Default, zero_panic), move || -> Out<<$K as Kind<X>>::V, X> {
+                        match mode {
+                            0 => Out::V(<$K as Kind<X>>::v_add(v, operands.pop().unwrap())),
+                            1 => Out::V(<$K as Kind<X>>::v_add_arr(v, <$K as Kind<X>>::v_into_arr(operands.pop().unwrap()))),
+                            2 => Out::V(<$K as Kind<X>>::v_mul_tup(v, <$K as Kind<X>>::v_into_tup(operands.pop().unwrap()))),
+                            3 => {
+                                *kept_w = operands.pop();
+                                Out::V(<$K as Kind<X>>::v_add_ref(v, kept_w.as_ref().unwrap()))
+                            }
+                            4 => {
+                                *kept_v = Some(v);
+                                <$K as Kind<X>>::v_add_assign(kept_v.as_mut().unwrap(), operands.pop().unwrap());
+                                Out::Assigned
+                            }
+                            5 => Out::V(<$K as Kind<X>>::v_neg(v)),
+                            6 => {
+                                let u = operands.pop().unwrap();
+                                let w = operands.pop().unwrap();
+                                Out::V(<$K as Kind<X>>::v_mul_add(v, w, u))
+                            }
+                            7 | 8 => {
+                                // the source yields v first, then the further vectors; what it has not
+                                // handed out when it is dropped goes back to the harness
+                                struct Src<'a, V> {
+                                    buf: VecDeque<V>,
+                                    back: &'a mut Vec<V>,
+                                    pulled: &'a mut usize,
+                                    calls: usize,
+                                    panic_at: usize,
+                                    fired: &'a mut bool,
+                                }
+                                impl<'a, V> Iterator for Src<'a, V> {
+                                    type Item = V;
+                                    fn next(&mut self) -> Option<V> {
+                                        self.calls += 1;
+                                        if self.panic_at != 0 && self.calls == self.panic_at && !std::thread::panicking() {
+                                            *self.fired = true;
+                                            tok::note(EV_INJECT, 5000 + self.calls as u64);
+                                            std::panic::panic_any(Injected);
+                                        }
+                                        let x = self.buf.pop_front()?;
+                                        *self.pulled += 1;
+                                        Some(x)
+                                    }
+                                }
+                                impl<'a, V> std::ops::Drop for Src<'a, V> {
+                                    fn drop(&mut self) {
+                                        while let Some(x) = self.buf.pop_front() {
+                                            self.back.push(x);
+                                        }
+                                    }
+                                }
+                                let mut buf: VecDeque<<$K as Kind<X>>::V> = VecDeque::new();
+                                buf.push_back(v);
+                                for o in operands.drain(..) {
+                                    buf.push_back(o);
+                                }
+                                let src = Src { buf, back: unpulled, pulled, calls: 0, panic_at: src_panic, fired: src_fired };
+                                if mode == 7 {
+                                    Out::V(<$K as Kind<X>>::v_sum_of(src))
+                                } else {
+                                    Out::V(<$K as Kind<X>>::v_product_of(src))
+                                }
+                            }
+                            9 => Out::X(<$K as Kind<X>>::v_elem_sum(v)),
+                            _ => Out::X(<$K as Kind<X>>::v_elem_product(v)),
+                        }
+                    })
+                };
+                let fresh = tok::fresh_in_op();
+                let (_calls, afired, log) = crate::arith::take();
+                let fired = afired || zfired || src_fired;
+                if fired {
+                    self.st.fault_fired[F_ARITH_PANIC] += 1;
+                    self.st.probes[P_ARITH_PANIC_FIRED] += 1;
+                }
+                if mode == 7 || mode == 8 {
+                    self.st.probes[P_ARITH_SUM_SOURCE] += 1;
+                }
+                if tok::has_violation() {
+                    // the ledger already objected (double drop, touch of a dead element, ...)
+                    match r {
+                        Ok(Out::V(x)) => std::mem::forget(x),
+                        Ok(Out::X(x)) => std::mem::forget(x),
+                        _ => {}
+                    }
+                    std::mem::forget(kept_v);
+                    std::mem::forget(kept_w);
+                    std::mem::forget(unpulled);
+                    self.model.clear();
+                    return true;
+                }
+                // the zero()/one() accumulator of Sum / Product: fresh elements, one per lane, in creation order
+                for (k, id) in fresh.iter().enumerate() {
+                    lane_of.insert(*id, k % (n * X::W));
+                }
+                // --- ownership law of the calls, whatever the shape of the computation: every call is
+                // handed values that are alive and distinct, and of one lane; the value it returns stays
+                // alive, its other by-value operands are gone
+                let mut alive: std::collections::BTreeSet<u32> = lane_of.keys().copied().collect();
+                let mut bad: Option<String> = None;
+                for (ci, c) in log.iter().enumerate() {
+                    let last = ci + 1 == log.len() && afired;
+                    let args: Vec<u32> = c.args.iter().copied().filter(|&a| a != crate::arith::NONE).collect();
+                    let mut lane: Option<usize> = None;
+                    for (ai, a) in args.iter().enumerate() {
+                        if !alive.contains(a) {
+                            bad = Some(format!("call {}: the element's operator was handed id {} which is not one of the operands or had already been consumed by an earlier call", ci + 1, a));
+                            break;
+                        }
+                        if args[..ai].contains(a) {
+                            bad = Some(format!("call {}: the same element (id {}) was handed in twice", ci + 1, a));
+                            break;
+                        }
+                        let l = lane_of.get(a).copied();
+                        if lane.is_some() && !matches!(mode, 9 | 10) && l != lane {
+                            bad = Some(format!("call {}: id {} belongs to lane {:?}, the other operand to lane {:?}", ci + 1, a, l, lane));
+                            break;
+                        }
+                        lane = l;
+                    }
+                    if bad.is_some() {
+                        break;
+                    }
+                    for (ai, a) in args.iter().enumerate() {
+                        let borrowed = c.borrowed & (1 << ai) != 0;
+                        if !borrowed && (last || *a != c.kept) {
+                            alive.remove(a);
+                        }
+                    }
+                }
+                if let Some(b) = bad {
+                    tok::raise(V5_ORDER, format!("{} on a {}: {}", what, <$K as Kind<X>>::NAME, b));
+                    match r {
+                        Ok(Out::V(x)) => std::mem::forget(x),
+                        Ok(Out::X(x)) => std::mem::forget(x),
+                        _ => {}
+                    }
+                    std::mem::forget(kept_v);
+                    std::mem::forget(kept_w);
+                    std::mem::forget(unpulled);
+                    self.model.clear();
+                    return true;
+                }
+                // vectors the source never handed out stay with the harness and are destroyed by it
+                let n_unpulled = unpulled.len();
+                let mut everything: Vec<Grp> = mine.clone();
+                for grps in og.iter() {
+                    everything.extend(grps.iter().copied());
+                }
+                let fresh_grps: Vec<Grp> = fresh.iter().map(|id| Grp::one(*id)).collect();
+                let mut back_with_harness: Vec<Grp> = Vec::new();
+                if n_unpulled > 0 {
+                    // the source is [v, operands...]; the last n_unpulled of them came back
+                    let all_src: Vec<&Vec<Grp>> = std::iter::once(&mine).chain(og.iter()).collect();
+                    for grps in all_src[all_src.len() - n_unpulled..].iter() {
+                        back_with_harness.extend(grps.iter().copied());
+                    }
+                    for g in back_with_harness.iter() {
+                        for id in g.iter() {
+                            if tok::state_of(id) != Some(St::Live) {
+                                tok::raise(V8_UNEXPECTED_DROP, format!("{}: id {} belongs to a vector the source never handed out, yet it was destroyed", what, id));
+                            }
+                        }
+                    }
+                    let _ = guard_nopanic("drop of the vectors the source kept", m(OWN_DOOMED) | m(OWN_MAIN), 0, move || drop(unpulled));
+                } else {
+                    drop(unpulled);
+                }
+                match r {
+                    Ok(Out::V(res)) => {
+                        // the result: position i holds values of lane i which the calls left alive
+                        let mut newmodel: Vec<Grp> = Vec::with_capacity(n);
+                        let mut ok = true;
+                        for i in 0..n {
+                            let g = <$K as Kind<X>>::v_field(&res, i).grp();
+                            for (j, id) in g.iter().enumerate() {
+                                let lane = lane_of.get(&id).copied();
+                                if lane != Some(i * X::W + j) || !alive.contains(&id) || tok::state_of(id) != Some(St::Live) {
+                                    tok::raise(V5_ORDER, format!("{} on a {}: position {} of the result holds id {} (lane {:?}, {}), which is not the value the element's operator returned for that lane", what, <$K as Kind<X>>::NAME, i, id, lane, if alive.contains(&id) { "alive" } else { "consumed" }));
+                                    ok = false;
+                                    break;
+                                }
+                            }
+                            if !ok {
+                                break;
+                            }
+                            newmodel.push(g);
+                        }
+                        if !ok {
+                            std::mem::forget(res);
+                            std::mem::forget(kept_w);
+                            self.model.clear();
+                            return true;
+                        }
+                        // every operand lane was handed to the operator: nothing bypassed it
+                        let want_calls = match mode {
+                            5 => n * X::W,
+                            7 | 8 => (1 + extra - n_unpulled) * n * X::W,
+                            _ => n * X::W,
+                        };
+                        let real_calls = log.iter().filter(|c| c.borrowed != 0b1).count();
+                        if real_calls != want_calls {
+                            tok::raise(V5_ORDER, format!("{} on a {}: the element's operator was called {} times, {} lanes were to be combined", what, <$K as Kind<X>>::NAME, real_calls, want_calls));
+                        }
+                        for g in newmodel.iter() {
+                            g.set_owner(OWN_MAIN);
+                        }
+                        self.model = newmodel;
+                        self.form = Form::V(res);
+                        // the borrowed operand is intact and is destroyed by the harness now
+                        if let Some(w) = kept_w.take() {
+                            for i in 0..n {
+                                if <$K as Kind<X>>::v_field(&w, i).grp() != og[0][i] {
+                                    tok::raise(V5_ORDER, format!("{}: the borrowed operand changed at position {}", what, i));
+                                }
+                            }
+                            let _ = guard_nopanic("drop of the borrowed operand", m(OWN_DOOMED), 0, move || drop(w));
+                        }
+                        let survivors: Vec<u32> = self.model.iter().flat_map(|g| g.iter().collect::<Vec<u32>>()).collect();
+                        let doomed: Vec<Grp> = everything.iter().chain(fresh_grps.iter()).copied().filter(|g| !g.iter().any(|id| survivors.contains(&id))).collect();
+                        self.settle_doomed(&doomed, false, what);
+                    }
+                    Ok(Out::X(x)) => {
+                        let g = x.grp();
+                        let real_calls = log.len();
+                        if real_calls != (n - 1) * X::W {
+                            tok::raise(V5_ORDER, format!("{} on a {}: the element's operator was called {} times for {} elements", what, <$K as Kind<X>>::NAME, real_calls, n));
+                        }
+                        for id in g.iter() {
+                            if !alive.contains(&id) || tok::state_of(id) != Some(St::Live) {
+                                tok::raise(V5_ORDER, format!("{} on a {}: the result (id {}) is not a value the element's operator left alive", what, <$K as Kind<X>>::NAME, id));
+                            }
+                        }
+                        if alive.len() != X::W {
+                            tok::raise(V7_LEAK, format!("{} on a {}: {} values were never handed to the element's operator", what, <$K as Kind<X>>::NAME, alive.len().saturating_sub(X::W)));
+                        }
+                        if tok::has_violation() {
+                            std::mem::forget(x);
+                        } else {
+                            let _ = guard_nopanic("drop of the reduced value", m(OWN_DOOMED) | m(OWN_MAIN), 0, move || drop(x));
+                            self.settle_doomed(&everything, false, what);
+                        }
+                        self.model.clear();
+                    }
+                    Ok(Out::Assigned) => {
+                        let v = kept_v.take().unwrap();
+                        let mut newmodel: Vec<Grp> = Vec::with_capacity(n);
+                        for i in 0..n {
+                            let g = <$K as Kind<X>>::v_field(&v, i).grp();
+                            for (j, id) in g.iter().enumerate() {
+                                if lane_of.get(&id).copied() != Some(i * X::W + j) || !alive.contains(&id) || tok::state_of(id) != Some(St::Live) {
+                                    tok::raise(V5_ORDER, format!("{} on a {}: position {} holds id {}, which is not the value the element's operator left there", what, <$K as Kind<X>>::NAME, i, id));
+                                }
+                            }
+                            newmodel.push(g);
+                        }
+                        if tok::has_violation() {
+                            std::mem::forget(v);
+                            self.model.clear();
+                            return true;
+                        }
+                        if log.len() != n * X::W {
+                            tok::raise(V5_ORDER, format!("{} on a {}: the element's operator was called {} times, {} lanes were to be combined", what, <$K as Kind<X>>::NAME, log.len(), n * X::W));
+                        }
+                        for g in newmodel.iter() {
+                            g.set_owner(OWN_MAIN);
+                        }
+                        let survivors: Vec<u32> = newmodel.iter().flat_map(|g| g.iter().collect::<Vec<u32>>()).collect();
+                        let doomed: Vec<Grp> = everything.iter().copied().filter(|g| !g.iter().any(|id| survivors.contains(&id))).collect();
+                        self.model = newmodel;
+                        self.form = Form::V(v);
+                        self.settle_doomed(&doomed, false, what);
+                    }
+                    Err(Thrown::Injected) if fired => {
+                        // ordinary unwinding through user code (rule R-unwind b): nothing leaks, nothing is
+                        // destroyed twice. What the harness still holds stays valid.
+                        let mut still: Vec<u32> = back_with_harness.iter().flat_map(|g| g.iter().collect::<Vec<u32>>()).collect();
+                        if let Some(w) = kept_w.take() {
+                            for i in 0..n {
+                                if <$K as Kind<X>>::v_field(&w, i).grp() != og[0][i] {
+                                    tok::raise(V5_ORDER, format!("{}: the borrowed operand changed at position {}", what, i));
+                                }
+                                for id in og[0][i].iter() {
+                                    if tok::state_of(id) != Some(St::Live) {
+                                        tok::raise(V8_UNEXPECTED_DROP, format!("{}: id {} of the borrowed operand was destroyed", what, id));
+                                    }
+                                }
+                            }
+                            let _ = guard_nopanic("drop of the borrowed operand", m(OWN_DOOMED), 0, move || drop(w));
+                        }
+                        if let Some(v) = kept_v.take() {
+                            // v += w was cut short: v is still a vector of live values, one per lane
+                            self.st.probes[P_ARITH_ASSIGN_PANIC_CONTINUES] += 1;
+                            let mut newmodel: Vec<Grp> = Vec::with_capacity(n);
+                            for i in 0..n {
+                                let g = <$K as Kind<X>>::v_field(&v, i).grp();
+                                for (j, id) in g.iter().enumerate() {
+                                    if lane_of.get(&id).copied() != Some(i * X::W + j) || tok::state_of(id) != Some(St::Live) {
+                                        tok::raise(V1_DOUBLE_DROP, format!("{} interrupted on a {}: position {} holds id {} which is {:?}: the vector the caller still owns contains a destroyed or foreign element", what, <$K as Kind<X>>::NAME, i, id, tok::state_of(id)));
+                                    }
+                                    still.push(id);
+                                }
+                                newmodel.push(g);
+                            }
+                            if tok::has_violation() {
+                                std::mem::forget(v);
+                                self.model.clear();
+                                return true;
+                            }
+                            for g in newmodel.iter() {
+                                g.set_owner(OWN_MAIN);
+                            }
+                            self.model = newmodel;
+                            self.form = Form::V(v);
+                        } else {
+                            self.model.clear();
+                        }
+                        let doomed: Vec<Grp> = everything.iter().chain(fresh_grps.iter()).copied().filter(|g| !g.iter().any(|id| still.contains(&id))).collect();
+                        self.settle_doomed(&doomed, false, what);
+                    }
+                    Err(t) => {
+                        std::mem::forget(kept_v);
+                        std::mem::forget(kept_w);
+                        self.model.clear();
+                        self.unexpected(what, t)
+                    }
+                }
+                true
+            }
             VClone => {
                 let v = match &self.form {
                     Form::V(v) => v,
